@@ -209,6 +209,16 @@ func (p *Path) isDefault(t types.Type, v value) *Term {
 }
 
 // mergeMsg merges src into dst (both structure values of message type st).
+// mergeCopy: the protobuf runtime's merge deep-copies what it takes from the
+// source; the dynamic package's merges (p.shallowMerge) take byte slices, map
+// values and nested messages by reference.
+func (p *Path) mergeCopy(t types.Type, v value) value {
+	if p.shallowMerge {
+		return v
+	}
+	return p.deepCopy(t, v)
+}
+
 func (p *Path) mergeMsg(st *types.Struct, dst *value, src structure) {
 	d := (*dst).(structure)
 	if ui := unknownIdx(st); ui >= 0 {
@@ -220,7 +230,7 @@ func (p *Path) mergeMsg(st *types.Struct, dst *value, src structure) {
 	for _, f := range protoFields(st) {
 		if f.oneof {
 			if it := src[f.idx].(iface); it.t != nil {
-				d[f.idx] = p.deepCopy(st.Field(f.idx).Type(), src[f.idx])
+				d[f.idx] = p.mergeCopy(st.Field(f.idx).Type(), src[f.idx])
 			}
 			continue
 		}
@@ -240,7 +250,7 @@ func (p *Path) mergeMsg(st *types.Struct, dst *value, src structure) {
 			}
 			mt := ft.Underlying().(*types.Map)
 			for _, e := range sm.ents {
-				dm.insert(p, p.deepCopy(mt.Key(), e.k), p.deepCopy(mt.Elem(), e.v))
+				dm.insert(p, p.mergeCopy(mt.Key(), e.k), p.mergeCopy(mt.Elem(), e.v))
 			}
 		case f.repeated:
 			ss := sv.([]value)
@@ -250,7 +260,7 @@ func (p *Path) mergeMsg(st *types.Struct, dst *value, src structure) {
 			et := ft.Underlying().(*types.Slice).Elem()
 			ds := d[f.idx].([]value)
 			for _, e := range ss {
-				ds = append(ds, p.deepCopy(et, e))
+				ds = append(ds, p.mergeCopy(et, e))
 			}
 			d[f.idx] = ds
 		default:
@@ -269,11 +279,11 @@ func (p *Path) mergeMsg(st *types.Struct, dst *value, src structure) {
 					}
 					p.mergeMsg(est, dp, (*sp).(structure))
 				} else {
-					d[f.idx] = p.deepCopy(ft, sv) // optional scalar
+					d[f.idx] = p.mergeCopy(ft, sv) // optional scalar
 				}
 			case *types.Slice: // bytes
 				if len(sv.([]value)) > 0 {
-					d[f.idx] = p.deepCopy(ft, sv)
+					d[f.idx] = p.mergeCopy(ft, sv)
 				}
 			default:
 				def := p.isDefault(ft, sv)
@@ -875,4 +885,214 @@ func protoResetIntrinsic(fr *frame, a []value) value {
 	}
 	*ptr = fr.p.zero(deref(fr.fn.Signature.Recv().Type()))
 	return nil
+}
+
+// ---- dynamic messages -------------------------------------------------------------------
+//
+// Model of *dynamic.Message (jhump/protoreflect): a dynamic message of message type T
+// is a box around a value of the generated struct for T, i.e. "the same message in
+// another representation". Contract (dynamic/dynamic_message.go, merge.go):
+//   TryMerge(dst, src): dst dynamic -> dst.MergeFrom(src); src dynamic -> src.MergeInto(dst);
+//                       otherwise type check + proto.Merge.
+//   MergeFrom/MergeInto/ConvertFrom/ConvertTo refuse a message of another type
+//   (compared by fully-qualified name; here by the identity of the generated Go type),
+//   ConvertFrom = Reset + merge, ConvertTo = target.Reset + merge, merge = proto3 merge.
+// Unknown fields of dynamic messages are outside the model (the harness gives them none).
+
+type dynBox struct {
+	t   types.Type // pointer-to-generated-struct type of the message type
+	ptr *value     // cell holding the structure
+}
+
+const dynMsgType = "github.com/jhump/protoreflect/dynamic.Message"
+
+func dynOf(v value) *dynBox {
+	ptr, ok := v.(*value)
+	if !ok || ptr == nil {
+		return nil
+	}
+	if o, ok := (*ptr).(*opaque); ok && o.kind == "dynmsg" {
+		return o.data.(*dynBox)
+	}
+	return nil
+}
+
+func dynOfIface(it iface) *dynBox {
+	if it.t == nil {
+		return nil
+	}
+	return dynOf(it.v)
+}
+
+func (p *Path) newDyn(t types.Type, content value) *value {
+	cell := new(value)
+	inner := new(value)
+	*inner = content
+	*cell = &opaque{kind: "dynmsg", data: &dynBox{t: t, ptr: inner}}
+	return cell
+}
+
+func addDynIntrinsics(m map[string]intrinsicFn) {
+	genOf := func(it iface) (types.Type, *value) {
+		if b := dynOfIface(it); b != nil {
+			return b.t, b.ptr
+		}
+		ptr, _ := it.v.(*value)
+		return it.t, ptr
+	}
+	// merge src into dst (either may be dynamic); returns error value or iface{}
+	mergeAny := func(fr *frame, dst, src iface) value {
+		p := fr.p
+		if dst.t == nil || src.t == nil {
+			panic(runtimePanic{"proto: Merge with nil message"})
+		}
+		dt, dp := genOf(dst)
+		st, sp := genOf(src)
+		if !types.Identical(dt, st) {
+			return p.errValue(fmt.Sprintf("message types are not compatible: %s and %s", typeString(dt), typeString(st)))
+		}
+		stt, ok := msgStruct(dt)
+		if !ok || !isProtoStruct(stt) {
+			panic(unsupported{"dynamic merge of non-struct message " + typeString(dt)})
+		}
+		if sp == nil {
+			return iface{}
+		}
+		if dp == nil {
+			panic(runtimePanic{"proto: Merge into nil message"})
+		}
+		if dynOfIface(dst) != nil || dynOfIface(src) != nil {
+			p.shallowMerge = true
+			defer func() { p.shallowMerge = false }()
+		}
+		p.mergeMsg(stt, dp, (*sp).(structure))
+		return iface{}
+	}
+	resetAny := func(fr *frame, it iface) {
+		t, ptr := genOf(it)
+		if ptr == nil {
+			panic(runtimePanic{"invalid memory address or nil pointer dereference"})
+		}
+		*ptr = fr.p.zero(deref(t))
+	}
+	selfIface := func(fr *frame, a value) iface {
+		return iface{t: fr.fn.Signature.Recv().Type(), v: a}
+	}
+	pre := "(*" + dynMsgType + ")."
+	m[apiName("DynOf")] = func(fr *frame, a []value) value {
+		it := a[0].(iface)
+		st, ok := msgStruct(it.t)
+		ptr, isPtr := it.v.(*value)
+		if !ok || !isPtr || ptr == nil || !isProtoStruct(st) {
+			panic(unsupported{"DynOf of " + typeString(it.t)})
+		}
+		return fr.p.newDyn(it.t, fr.p.deepCopy(deref(it.t), *ptr))
+	}
+	m[pre+"Reset"] = func(fr *frame, a []value) value { resetAny(fr, selfIface(fr, a[0])); return nil }
+	m[pre+"ProtoMessage"] = func(fr *frame, a []value) value { return nil }
+	m[pre+"String"] = func(fr *frame, a []value) value { return Str{s: "<dynamic message>"} }
+	m[pre+"MergeFrom"] = func(fr *frame, a []value) value { return mergeAny(fr, selfIface(fr, a[0]), a[1].(iface)) }
+	m[pre+"Merge"] = func(fr *frame, a []value) value {
+		if e, isErr := mergeAny(fr, selfIface(fr, a[0]), a[1].(iface)).(iface); isErr && e.t != nil {
+			panic(runtimePanic{"dynamic.Message.Merge: incompatible types"})
+		}
+		return nil
+	}
+	m[pre+"MergeInto"] = func(fr *frame, a []value) value { return mergeAny(fr, a[1].(iface), selfIface(fr, a[0])) }
+	m[pre+"ConvertFrom"] = func(fr *frame, a []value) value {
+		self := selfIface(fr, a[0])
+		src := a[1].(iface)
+		dt, _ := genOf(self)
+		st, _ := genOf(src)
+		if src.t == nil || !types.Identical(dt, st) {
+			return fr.p.errValue("message types are not compatible")
+		}
+		resetAny(fr, self)
+		return mergeAny(fr, self, src)
+	}
+	m[pre+"ConvertTo"] = func(fr *frame, a []value) value {
+		self := selfIface(fr, a[0])
+		dst := a[1].(iface)
+		dt, _ := genOf(dst)
+		st, _ := genOf(self)
+		if dst.t == nil || !types.Identical(dt, st) {
+			return fr.p.errValue("message types are not compatible")
+		}
+		resetAny(fr, dst)
+		return mergeAny(fr, dst, self)
+	}
+	m[pre+"GetMessageDescriptor"] = func(fr *frame, a []value) value {
+		b := dynOf(a[0])
+		if b == nil {
+			panic(unsupported{"GetMessageDescriptor of a non-model dynamic message"})
+		}
+		cell := new(value)
+		*cell = &opaque{kind: "msgdesc", data: b.t}
+		return cell
+	}
+	m["github.com/jhump/protoreflect/dynamic.NewMessage"] = func(fr *frame, a []value) value {
+		ptr, _ := a[0].(*value)
+		if ptr == nil {
+			panic(unsupported{"dynamic.NewMessage(nil)"})
+		}
+		o, ok := (*ptr).(*opaque)
+		if !ok || o.kind != "msgdesc" {
+			panic(unsupported{"dynamic.NewMessage of a descriptor that is not from the model"})
+		}
+		t := o.data.(types.Type)
+		return fr.p.newDyn(t, fr.p.zero(deref(t)))
+	}
+	m[pre+"Marshal"] = func(fr *frame, a []value) value {
+		b := dynOf(a[0])
+		if b == nil {
+			panic(unsupported{"Marshal of a non-model dynamic message"})
+		}
+		return fr.p.protoMarshal(fr, iface{t: b.t, v: b.ptr})
+	}
+	m[pre+"Unmarshal"] = func(fr *frame, a []value) value {
+		b := dynOf(a[0])
+		if b == nil {
+			panic(unsupported{"Unmarshal into a non-model dynamic message"})
+		}
+		return fr.p.protoUnmarshal(fr, a[1], iface{t: b.t, v: b.ptr}, true)
+	}
+	m["github.com/jhump/protoreflect/dynamic.TryMerge"] = func(fr *frame, a []value) value {
+		dst, src := a[0].(iface), a[1].(iface)
+		if dynOfIface(dst) == nil && dynOfIface(src) == nil {
+			if dst.t != nil {
+				if ptr, ok := dst.v.(*value); ok && ptr == nil {
+					return fr.p.errValue("proto: nil destination")
+				}
+			}
+			if dst.t != nil && src.t != nil && !types.Identical(dst.t, src.t) {
+				return fr.p.errValue("proto: type mismatch")
+			}
+		}
+		return mergeAny(fr, dst, src)
+	}
+	clonePrev := m["github.com/golang/protobuf/proto.Clone"]
+	cloneDyn := func(fr *frame, a []value) value {
+		it := a[0].(iface)
+		if b := dynOfIface(it); b != nil {
+			// proto.Clone of a dynamic message = new message + (shallow) merge
+			c := fr.p.newDyn(b.t, fr.p.zero(deref(b.t)))
+			mergeAny(fr, iface{t: it.t, v: c}, it)
+			return iface{t: it.t, v: c}
+		}
+		return clonePrev(fr, a)
+	}
+	m["github.com/golang/protobuf/proto.Clone"] = cloneDyn
+	m["google.golang.org/protobuf/proto.Clone"] = cloneDyn
+	mergePrev := m["github.com/golang/protobuf/proto.Merge"]
+	mergeDyn := func(fr *frame, a []value) value {
+		if dynOfIface(a[0].(iface)) != nil || dynOfIface(a[1].(iface)) != nil {
+			if e, isErr := mergeAny(fr, a[0].(iface), a[1].(iface)).(iface); isErr && e.t != nil {
+				panic(runtimePanic{"proto.Merge: incompatible types"})
+			}
+			return nil
+		}
+		return mergePrev(fr, a)
+	}
+	m["github.com/golang/protobuf/proto.Merge"] = mergeDyn
+	m["google.golang.org/protobuf/proto.Merge"] = mergeDyn
 }
